@@ -1,3 +1,4 @@
 pub mod alpha;
+pub mod bdd;
 pub mod group;
 pub mod tt;
